@@ -172,6 +172,10 @@ pub fn probes(tier: &str) -> Vec<Probe> {
             p.push(Probe::Uncompact(vec![c], r));
         }
         p.push(Probe::Boundary(c, Some(3), true));
+        // segments = 0 is answered like segments = 1 by the pinned release (negative counts are not probed:
+        // the option is not in the property's quantifier and the pinned release aborts on them)
+        p.push(Probe::Boundary(c, Some(0), true));
+        p.push(Probe::Boundary(c, Some(0), false));
     }
     for w in subset.windows(3).step_by(5) {
         p.push(Probe::Compact(w.to_vec()));
@@ -281,6 +285,9 @@ fn in_range(r: i32) -> bool {
 fn in_scope(p: &Probe) -> bool {
     let sub_res = |c: u64| subj::resolution(c).unwrap_or(0).clamp(-1, 29);
     let fan = |c: u64, r: i32| -> bool {
+        if !in_range(r) {
+            return true; // no honest result at all: the call must be rejected, whatever the cell
+        }
         let a = sub_res(c);
         let b = r.min(29);
         b < a || rc::fanout(a, b) <= 65536
